@@ -72,15 +72,21 @@ func (c *cpu) legacyDecimal(a, d uint32, w int) {
 	c.nz(sum&mask, w)
 }
 
-func (c *cpu) rd(a uint32) byte      { return c.m.Read(a & 0xFFFFFF) }
-func (c *cpu) wr(a uint32, v byte)   { c.m.Write(a&0xFFFFFF, v) }
-func (c *cpu) op(i uint16) byte      { return c.rd(uint32(c.s.K)<<16 | uint32(c.s.PC+i)) }
-func (c *cpu) op16() uint16          { return uint16(c.op(1)) | uint16(c.op(2))<<8 }
-func (c *cpu) m8() bool              { return c.s.P&FM != 0 }
-func (c *cpu) x8() bool              { return c.s.P&FX != 0 }
-func (c *cpu) flag(f byte) bool      { return c.s.P&f != 0 }
-func (c *cpu) setf(f byte, on bool) { if on { c.s.P |= f } else { c.s.P &^= f } }
-func bank0(a uint16) uint32          { return uint32(a) }
+func (c *cpu) rd(a uint32) byte    { return c.m.Read(a & 0xFFFFFF) }
+func (c *cpu) wr(a uint32, v byte) { c.m.Write(a&0xFFFFFF, v) }
+func (c *cpu) op(i uint16) byte    { return c.rd(uint32(c.s.K)<<16 | uint32(c.s.PC+i)) }
+func (c *cpu) op16() uint16        { return uint16(c.op(1)) | uint16(c.op(2))<<8 }
+func (c *cpu) m8() bool            { return c.s.P&FM != 0 }
+func (c *cpu) x8() bool            { return c.s.P&FX != 0 }
+func (c *cpu) flag(f byte) bool    { return c.s.P&f != 0 }
+func (c *cpu) setf(f byte, on bool) {
+	if on {
+		c.s.P |= f
+	} else {
+		c.s.P &^= f
+	}
+}
+func bank0(a uint16) uint32 { return uint32(a) }
 
 func (c *cpu) nz(v uint32, w int) {
 	if w == 8 {
